@@ -15,7 +15,8 @@ convention of the harness fermions to the reference the authors used.
 
 Known findings (own signature prefixes, narrow matchers): F12 (``f12.``: short symbols are invisible to the JW-aware swap),
 FC17a (``fc17a.``: QR-built MPO + graph swap leaves an identically cancelling bond operator -> AssertionError in swap_site),
-FC17b (``fc17b.``: JW-created operators carry a one-component qn in a two-component model -> duplicate table rows).
+FC17b (``fc17b.``: JW-created operators carry a one-component qn in a two-component model -> duplicate table rows),
+FC17c (``fc17c.``: QR bond operators mixing symmetry sectors at rounding level give a wrong bond label).
 In the F12 zone (short symbols and swap_jw) everything that does not depend on the sign convention is still asserted under
 the ordinary signatures (permutation, spectrum, plain-permutation fallback, labels, sector, variational bound).
 """
@@ -287,6 +288,45 @@ def cancelling_bond_operator(mpo, rel=1e-10):
     return None
 
 
+def mixed_sector_bond_operator(mpo):
+    """FC17c: (bond, index, factors) of a bond operator of the symbolic MPO that is a linear combination of operators with
+    DIFFERENT quantum numbers.  The QR decomposition works on the whole coefficient matrix; when the coefficients span many
+    decades, normalising a small column amplifies rounding noise of other symmetry blocks above the 1e-10 entry cut, and the
+    bond label is taken from the first member of the sum (possibly the noise member)."""
+    try:
+        width = int(mpo.model.qn_size)
+        for b, lst in enumerate(mpo.symbolic_out_ops_list):
+            for j, opsum in enumerate(lst):
+                qns = set()
+                for op in opsum:
+                    q = np.atleast_1d(np.asarray(op.qn)).astype(int)
+                    if len(q) != width:
+                        q = np.resize(q, width)
+                    qns.add(tuple(q.tolist()))
+                if len(qns) > 1:
+                    return b, j, [float(abs(op.factor)) for op in opsum][:6]
+    except Exception:  # noqa
+        return None
+    return None
+
+
+def check_operator_labels(r, mpo, sig, tol, tag, what=""):
+    """bond labels of an operator describe its tensors; a violation caused by a mixed-sector QR bond operator is FC17c"""
+    lv, where = chain.label_violation(mpo)
+    r.resid(sig + (".qr" if tol > 1e-9 else ".graph"), lv, tol)
+    r.subchecks += 1
+    if lv <= tol:
+        return True
+    mixed = mixed_sector_bond_operator(mpo)
+    if mixed is not None:
+        r.fail(f"fc17c.{tag}.qr_mixed_sector_label", f"bond labels invalid ({lv:.2e}) at {where}; bond operator {mixed[1]} of bond {mixed[0]} mixes "
+                                                     f"quantum-number sectors (|factors| {mixed[2]}) {what}")
+        r.classes.append("fc17c")
+    else:
+        r.fail(sig, f"bond labels invalid ({lv:.2e}) at {where} {what}")
+    return False
+
+
 def classify_swap_assert(e, case, mpo, kind):
     """signature of the two known ways try_swap_site dies with an AssertionError (None = something else).
     FC17a: an MPO built with the QR algorithm has bond operators that are linear combinations; a graph-algorithm swap treats
@@ -528,13 +568,16 @@ class C17(Prop):
                    "optimize_mps: the returned state keeps the site order it had when it was captured, which may differ from the final "
                    "order of the in-place operator; each is un-permuted with its own order.  Lossless schedules: energies[-1] <= <H> of "
                    "the un-permuted returned state <= energies[-2]",
-                   "known findings F12 / FC17a / FC17b (see module docstring); C01's F15 (QR self-check refuses a correct swap) is "
+                   "known findings F12 / FC17a / FC17b / FC17c (see module docstring); C01's F15 (QR self-check refuses a correct swap) is "
                    "counted as rejected here"]
 
     known_matchers = {
         "F12": lambda spec, sig, msg: sig.startswith("f12.") and spec.get("symbols") == "short" and bool(spec.get("swap_jw")),
         "FC17a": lambda spec, sig, msg: sig.startswith("fc17a.") and sig.endswith("empty_bond_operator")
         and (spec.get("kind") in ("gs", "evo") or (spec.get("algo") == "qr" and spec.get("swap_algo") in ("Hopcroft-Karp", "Hungarian"))),
+        "FC17c": lambda spec, sig, msg: sig.startswith("fc17c.") and sig.endswith("qr_mixed_sector_label")
+        and (spec.get("kind") in ("gs", "evo") or "qr" in (spec.get("algo"), spec.get("swap_algo")))
+        and bool(spec.get("conserve_qn", spec.get("sys", {}).get("conserve_qn", spec.get("sys", {}).get("type") != "qc"))),
         "FC17b": lambda spec, sig, msg: sig.startswith("fc17b.") and sig.endswith("duplicate_primary_ops") and bool(spec.get("swap_jw"))
         and bool(spec.get("conserve_qn", spec.get("sys", {}).get("conserve_qn"))),
     }
@@ -597,9 +640,11 @@ class C17(Prop):
             want = ([[0, 0], [1, 0]] if j % 2 == 0 else [[0, 0], [0, 1]]) if cq else [[0], [0]]
             r.check("qc.sigmaqn", b.nbas == 2 and np.array_equal(np.asarray(b.sigmaqn), np.array(want)),
                     f"orbital {j}: sigmaqn {np.asarray(b.sigmaqn).tolist()}")
+        # QR construction: linear combinations with a relative rank cut of 1e-10 leave rounding-level entries (observed 2.5e-8
+        # of the largest entry when the integrals span several decades) in positions the labels forbid; graph algorithms: exact
+        lab_tol = 1e-6 if case["algo"] == "qr" else 1e-12
         for m in mpos:
-            lv, where = chain.label_violation(m)
-            r.check("qc.labels", lv <= 1e-12, f"bond labels do not describe the tensors ({lv:.2e}) at {where}")
+            check_operator_labels(r, m, "qc.labels", lab_tol, "qc")
             r.check("qc.qntot", not np.any(np.asarray(m.qntot)), f"operator charge {m.qntot}")
         if cq and not stacked:
             # the labels are (N_alpha, N_beta): the left block of bond b changes the electron numbers by -label
@@ -620,6 +665,7 @@ class C17(Prop):
         scale = int_scale(sh, aseri)
         qr = "qr" in (case["algo"], case["swap_algo"])
         tol = (1e-7 if qr else 1e-10) * scale
+        lab_tol = 1e-6 if qr else 1e-12  # see run_qc
         zone = f12_zone(case)
         r.classes += [f"swap.K={K}", "swap.jw" if jw else "swap.nojw", f"swap.symbols.{case['symbols']}",
                       f"swap.algo.{case['swap_algo']}"] + (["swap.f12_zone"] if zone else [])
@@ -664,16 +710,14 @@ class C17(Prop):
                         r.fail("f12.swap.short_symbols_only_permuted",
                                f"swap_jw=True on a qc_model operator ('+ - Z'): result is the plain leg permutation, |d - F H F+| = "
                                f"{err_f:.3e} (tol {tol:.1e}) " + what)
-                    lv, where = chain.label_violation(mpo)
-                    r.check("swap.labels", lv <= 1e-12, f"bond labels invalid ({lv:.2e}) at {where} " + what)
+                    check_operator_labels(r, mpo, "swap.labels", lab_tol, "swap", what)
                     break
                 r.resid("swap.jw", err_f, tol)
             elif not r.check_close("swap.jw" if jw else "swap.permutation", d, want, tol, what):
                 break
             if jw and np.max(np.abs(want_f - want_p)) > tol:
                 r.classes.append("swap.sign_matters")
-            lv, where = chain.label_violation(mpo)
-            if not r.check("swap.labels", lv <= 1e-12, f"bond labels invalid ({lv:.2e}) at {where} " + what):
+            if not check_operator_labels(r, mpo, "swap.labels", lab_tol, "swap", what):
                 break
             r.check("swap.model", [bb.dofs[0] for bb in mpo.model.basis] == order, "mpo.model is not the new model")
 
@@ -725,8 +769,8 @@ class C17(Prop):
                                                            f"|d - F H F+| = {err:.3e} (order {order})")
         else:
             r.check_close(f"{tag}.mpo_reordered", d, want, tol, f"in-place operator vs original in order {order} (jw={sysm.fermi})")
-        lv, where = chain.label_violation(mpo)
-        r.check(f"{tag}.mpo_labels", lv <= 1e-10, f"operator bond labels invalid ({lv:.2e}) at {where}")
+        # the operator of an OFS run is built with the default algorithm (qr): see run_qc
+        check_operator_labels(r, mpo, f"{tag}.mpo_labels", 1e-6, tag, f"(order {order})")
         return order
 
     def run_gs(self, case, r):
